@@ -179,8 +179,10 @@ Proof.
   destruct (e =? 0); [reflexivity|].
   destruct (e =? 63).
   - destruct r3 as [|e1 r4]; [exact I|]. destruct (e1 =? 62); [reflexivity|].
-    apply (rrel_bind Rpos); [apply skipSpace_ri; reflexivity|]. intros q q' Rq. apply IH, Rq.
-  - apply (rrel_bind Rpos); [apply skipSpace_ri; reflexivity|]. intros q q' Rq. apply IH, Rq.
+    apply IH. reflexivity.
+  - cbv zeta. destruct (e =? 13).
+    + destruct r3 as [|e1 r4]; [exact I|]. destruct (e1 =? 10); apply IH; reflexivity.
+    + apply IH. reflexivity.
 Qed.
 
 Lemma prolog_ri : forall f p p', rest p = rest p' -> rrel Rpos (prolog f p) (prolog f p').
